@@ -15,11 +15,15 @@ def run(chk):
     wacc = [f for f, o in zip(wide, lib.run_lines(mdl, ["parse %s 3" % f for f in wide])) if o.startswith("parse 0")]
     canon = dict(zip(acc + wacc, lib.run_lines(mdl, ["spec_canon " + f for f in acc + wacc])))
     nontrivial = set(); corr = []; ip6n = 0
+    model_cache = {}
     for fl, exe in exes.items():
         strs = acc + (wacc if fl.startswith("W") else [])
         # borrowed: makeowner prints T= twice (before and after the source is destroyed): owned copy too
         reqs = ["makeowner P " + f for f in strs]
-        impl = lib.run_lines(exe, reqs); model = lib.run_lines(mdl, reqs)
+        impl = lib.run_lines(exe, reqs)
+        need = [r for r in reqs if r not in model_cache]
+        for r, o_ in zip(need, lib.run_lines(mdl, need)): model_cache[r] = o_
+        model = [model_cache[r] for r in reqs]
         chk.cov["evaluations"] += len(reqs); chk.cov["traces_validated_against_impl"] += len(reqs)
         texts = []
         for f, rq, o, m in zip(strs, reqs, impl, model):
